@@ -247,7 +247,7 @@ fn gen_ints(r: &mut Rng, wide: bool) -> Op {
     let (n, dom) = match r.below(20) {
         0..=10 => (1 + r.below(cap), dom),                     // admissible: 1..min(255, dom-1)
         11 => (cap, dom),
-        12 | 13 => (dom.min(255) + r.below(3), 1 << (1 + r.below(8))), // count >= domain size (documented panic) or just below
+        12 | 13 => (dom.min(255) + r.below(3), 1 << (1 + r.below(8))), // count >= domain size (documented error) or just below
         14 => (1 + r.below(255), dom ^ (1 << r.below(k)) | 1 << r.below(33)), // mostly not a power of two
         15 => (r.below(3), [0u64, 1, 2, 3][r.below(4) as usize]),     // degenerate domains / zero count
         16 => if r.chance(1, 4) && !wide { (999 + r.below(4), 1 << (10 + r.below(23))) } else { (1 + r.below(cap), dom) }, // around the 1000-iteration limit
@@ -509,8 +509,10 @@ fn shadow<B: Fld, H: ElementHasher<BaseField = B>>(seed: &[u128], ops: &[FOp<H::
                 Out::Elem(res)
             }
             FOp::Ints(n, dom, nonce) => {
-                if *dom == 0 || (*dom & (*dom - 1)) != 0 || *n >= *dom {
-                    Out::Ints(Err("panic".into()))
+                if *dom == 0 || (*dom & (*dom - 1)) != 0 {
+                    Out::Ints(Err("panic".into())) // documented panic: domain size not a power of two
+                } else if *n >= *dom {
+                    Out::Ints(Err("err".into())) // documented error: count >= domain size (coin untouched)
                 } else {
                     s = H::merge_with_int(s, *nonce);
                     ctr = 0;
@@ -550,7 +552,7 @@ fn gen_fints(r: &mut Rng) -> (usize, usize, u64) {
     let n = match r.below(10) {
         0 => cap,
         1 => 1,
-        2 => (dom as u64).min(255) + r.below(2), // count >= domain size when dom <= 255: documented panic
+        2 => (dom as u64).min(255) + r.below(2), // count >= domain size when dom <= 255: documented error
         _ => 1 + r.below(cap),
     } as usize;
     (n.clamp(1, 255), dom, gen_nonce(r))
